@@ -84,6 +84,9 @@ def connStep (d : DState) (toks : List String) : DState × String :=
     match n.toNat? with
     | some n => ({ n := n, s := init }, "ok | " ++ vector n init)
     | none => (d, "bad-op")
+  | ["readcur", _] =>
+    -- Connection.readCurrent(obj) on an object that is NEW in this transaction (serial 0): recorded nowhere
+    (d, "ok | " ++ vector d.n d.s)
   | _ =>
     match parseOp toks with
     | none => (d, "bad-op")
